@@ -359,7 +359,8 @@ func (m *symModel) size() uint64 {
 }
 
 // buildAscending inserts n entries with strictly ascending symbolic keys (symbolic
-// layers and values). By canonical form (C04) this reaches every tree shape of n entries.
+// layers and values). By canonical form (C04) this reaches every tree shape of n entries
+// (not every state of the nodes' backing arrays: see MID below).
 func buildAscending(tag string, t *Mast, md *symModel, n int) []uint64 {
 	var ks []uint64
 	for i := 0; i < n; i++ {
@@ -398,6 +399,15 @@ func buildAscending(tag string, t *Mast, md *symModel, n int) []uint64 {
 		verifAssert("C01."+tag+".insert.err", err == nil)
 		md.put(k, v)
 		ks = append(ks, k)
+	}
+	// MID further symbolic inserts, anywhere in the key range and at any layer (updates included).
+	// The *shape* they lead to is one an ascending build reaches too, but not the state of the
+	// nodes' arrays: the right half of a split in the middle of the tree keeps spare capacity and
+	// can end up as a left sibling, which an ascending build never produces.
+	for i := 0; i < verifBoundOr("MID", 0); i++ {
+		k, v := verifNondetKey("midk"), verifNondetVal("midv")
+		verifAssert("C01."+tag+".mid-insert.err", t.Insert(vctx, symKey{k}, v) == nil)
+		md.put(k, v)
 	}
 	return ks
 }
